@@ -322,4 +322,11 @@ def quoteBody : Bytes → Bytes
 
 def quote (bs : Bytes) : Bytes := 34 :: quoteBody bs ++ [34]
 
+/-- Go map semantics on decoded (key, raw value) pairs: the last duplicate wins -/
+def lookupLastRaw (k : Bytes) : List (Bytes × Bytes) → Option Bytes
+  | [] => none
+  | (k', v) :: r => match lookupLastRaw k r with
+    | some x => some x
+    | none => if k' = k then some v else none
+
 end Jrpc.Json
